@@ -384,9 +384,24 @@ def subst(f, pairs, rule):
         c = f.code
         hits = []
         n = len(want)
+        # an identifier of the form __ANY_x__ in `before` stands for any one identifier (the same one at every occurrence); it is
+        # carried over into `after`: anchors that have to mention a local variable do not break when the variable is renamed
+        wild = [re.match(r"^__ANY_(\w+)__$", w) for w in want]
+        binds = {}
         for i in range(len(c) - n + 1):
-            if c[i].text == want[0] and [t.text for t in c[i:i + n]] == want:
+            b, ok = {}, True
+            for k in range(n):
+                t = c[i + k]
+                if wild[k]:
+                    if t.kind != "ident" or b.setdefault(wild[k].group(1), t.text) != t.text:
+                        ok = False
+                        break
+                elif t.text != want[k]:
+                    ok = False
+                    break
+            if ok:
                 hits.append(i)
+                binds[i] = b
         cnt = p.get("count", 1)
         if cnt == "any":
             if not hits and not p.get("optional"):
@@ -395,7 +410,12 @@ def subst(f, pairs, rule):
             if p.get("optional") and not hits:
                 continue
             raise RuleError("%s: anchored text `%s` found %d times (expected %d)" % (rule, " ".join(want)[:80], len(hits), cnt))
-        edits = [(c[i].pos, c[i + n - 1].end, p["after"]) for i in hits]
+        def inst(i):
+            a = p["after"]
+            for k, v in binds.get(i, {}).items():
+                a = a.replace("__ANY_%s__" % k, v)
+            return a
+        edits = [(c[i].pos, c[i + n - 1].end, inst(i)) for i in hits]
         f.apply(edits, p.get("rule", rule))
 
 
